@@ -70,11 +70,16 @@ def gen_cases(tier, seed):
                 params["gamma"] = 0.0 if not isinstance(params["gamma"], dict) else params["gamma"]
             spec = {"dims": [{"fam": "weibull", "params": {"alpha": 2.0, "beta": 1.5, "gamma": 0.0}}, {"fam": fam, "cond": 0, "params": params}]}
             cases.append({"kind": "joint", "spec": spec, "n": 20000, "seed": int(SEEDS[k % len(SEEDS)]), "constant_type": k})
+    # transformed models (Hs-steepness -> Hs-Tz): fresh, and after the cached Monte-Carlo sample was used and the base
+    # model's parameters changed
+    trng = np.random.default_rng([seed, 7, 16])
+    for k in range(4 if tier == "quick" else 40):
+        cases.append({"kind": "transformed", "variant": ["windmeier", "random", "nonzero", "random"][k % 4], "sub": int(trng.integers(1 << 31)), "seed": int(SEEDS[k % len(SEEDS)]), "cost": 3})
     # units as an input class
     urng = np.random.default_rng([seed, 7, 77])
     kj = 0
     for cse in cases:
-        if cse["kind"] == "joint":
+        if cse["kind"] == "joint" and "units" not in cse:
             kj += 1
             if kj % 4 == 2:
                 cse["units"] = [float(urng.choice([1e-6, 1e-3, 1e2, 1e4])) for _ in cse["spec"]["dims"]]
@@ -105,8 +110,49 @@ def _seed_variants(seed):
     return [("int", lambda: seed), ("generator", lambda: np.random.default_rng(seed))]
 
 
+def _transformed(case, ctx):
+    from . import c16
+
+    rng = np.random.default_rng(case["sub"])
+    spec = c16.hs_s_spec(rng, case["variant"])
+    tm, base = c16.build_transformed(spec)
+    ctx.cls("kind", "transformed-model")
+    ctx.sig = f"transformed:{case['variant']}:{case['sub']}"
+    ctx.nontrivial = True
+    n, seed = 20000, case["seed"]
+    eps = stats.dkw_eps(n)
+
+    def pit(smp, ref, label):
+        smp = np.asarray(smp, float)
+        ctx.check("c07.shape", smp.shape == (n, 2), f"transformed model: sample shape {smp.shape}")
+        Xb = np.c_[smp[:, 0], c16.s_of(smp[:, 0], smp[:, 1])]
+        for i in range(2):
+            U = ref.cond_cdf(i, Xb)
+            D = stats.ks_distance(U[np.isfinite(U)], lambda t: np.clip(t, 0, 1))
+            ctx.check("c07.ks-joint", D <= eps + 1e-6, f"transformed model ({label}): variable {i} of the back-transformed sample does not follow the base model (KS {D:.4g} > {eps:.4g})", ks=D, eps=eps, variant=case["variant"])
+
+    ref = S.RefModel(spec)
+    a = tm.draw_sample(n, random_state=seed)
+    pit(a, ref, "fresh, seeded")
+    ctx.check("c07.reproducible", np.array_equal(a, tm.draw_sample(n, random_state=seed)), "transformed model: same seed, different samples")
+    pit(tm.draw_sample(n), ref, "fresh, unseeded")
+    # history
+    with np.errstate(all="ignore"):
+        tm.empirical_cdf(np.asarray(a)[:3])
+    dep = base.distributions[1].conditional_parameters["alpha"]
+    keys = list(dep.parameters.keys())
+    dep.parameters[keys[1]] = float(dep.parameters[keys[1]]) * 1.6
+    spec["dims"][1]["params"]["alpha"]["coef"][1] = float(spec["dims"][1]["params"]["alpha"]["coef"][1]) * 1.6
+    ref2 = S.RefModel(spec)
+    pit(tm.draw_sample(n), ref2, "after the cached sample was used and the parameters changed, unseeded")
+    pit(tm.draw_sample(n, random_state=seed), ref2, "after the cached sample was used and the parameters changed, seeded")
+    ctx.sample = {"kind": "transformed", "variant": case["variant"], "n": n}
+
+
 def run_case(case, ctx):
     kind = case["kind"]
+    if kind == "transformed":
+        return _transformed(case, ctx)
     if kind == "uni":
         _uni(case, ctx)
     elif kind == "uni-small":
